@@ -321,11 +321,32 @@ pub fn gen_macros<R: Src>(r: &mut R, cfg: &GenCfg) -> Program {
          };
          // wrapper macro with its own local of the same spelling, calling hopm inside a disjunction and again after it
          let wrap_ok = ta == tb;
+         // a macro with an empty body (expands to nothing), invoked in front of other items of a macro body and of a disjunct
+         let has_nop = r.chance(50);
+         let nop = |a: &str| BodyItem::MacroCall { name: "nopm".into(), args: vec![MacroArg { is_ident: true, ident: a.into(), expr: None }] };
+         if has_nop {
+            prog.macros.push(MacroDef {
+               name: "nopm".into(),
+               params: vec![MacroParam { name: "p0".into(), is_ident: true, ty: ta, role: "needs".into() }],
+               body: vec![],
+               head: vec![],
+               is_head: false,
+               trailing_comma: false,
+            });
+         }
          if wrap_ok && r.chance(60) {
+            let mut wbody = vec![BodyItem::Disj(vec![vec![call("$p0", &wlocal)], alt("$p0", &wlocal)]), call(&wlocal, "$p1")];
+            if has_nop {
+               // first item of the body, and first item of the first disjunct
+               if let BodyItem::Disj(ds) = &mut wbody[0] {
+                  ds[1].insert(1, nop("$p0"));
+               }
+               wbody.insert(1, nop("$p0"));
+            }
             prog.macros.push(MacroDef {
                name: "hopw".into(),
                params: hop.params.clone(),
-               body: vec![BodyItem::Disj(vec![vec![call("$p0", &wlocal)], alt("$p0", &wlocal)]), call(&wlocal, "$p1")],
+               body: wbody,
                head: vec![],
                is_head: false,
                trailing_comma: false,
@@ -499,7 +520,7 @@ pub fn gen_macros<R: Src>(r: &mut R, cfg: &GenCfg) -> Program {
    // a comma after the last item of a macro body is legal and must not change what an invocation expands to, wherever
    // the invocation sits (last item of another macro's body, of a disjunct, of a head list)
    for m in prog.macros.iter_mut() {
-      m.trailing_comma = r.chance(40);
+      m.trailing_comma = r.chance(40) && !(m.body.is_empty() && m.head.is_empty());
    }
    prog
 }
